@@ -175,6 +175,55 @@ for i in range(nbase):
                         compare("C04:vector-vs-scalar", "entry %d of %s vs the flat vector call" % (j_w, t8), [f[j_w] for f in f6],
                                 [float(o[j_w]) for o in outs], scales_for(seq, rho, ws[j_w]), tol=1e-13)
 
+# ---------------------------------------------------------------- the same compound spelled in several ways as a string
+stats["string_spellings"] = 0
+UNITS_ = ["CaCO3", "H2O", "NaCl", "SiO2", "Fe2O3", "D2O", "C6H6", "Gd2O3", "HO", "NH3"]
+for _ in range(12 if tier == "quick" else 120):
+    u1, u2 = rng.sample(UNITS_, 2)
+    k_ = rng.choice([2, 3, 6, 12])
+    spellings = ["(%s)(%s)%d" % (u1, u2, k_), "(%s) %d%s" % (u1, k_, u2), "(%s)+%d%s" % (u1, k_, u2), "%s (%s)%d" % (u1, u2, k_),
+                 "%s+%d%s" % (u1, k_, u2), "%s %d%s" % (u1, k_, u2), "%d%s + %s" % (k_, u2, u1)]
+    ref_ = None
+    for sp in spellings:
+        stats["string_spellings"] += 1
+        r_ = attempt(nsf.neutron_scattering, sp, density=2.5, wavelength=1.798)
+        f_ = flatten_result(r_, False, 1) if isinstance(r_, tuple) else None
+        if f_ is None:
+            fail("C04:regrouping", "neutron_scattering(%r, density=2.5) gives %r" % (sp, r_), call=sp)
+            continue
+        if ref_ is None:
+            ref_ = (sp, f_)
+        elif any(abs(a_[0] - b_[0]) > 1e-11 * max(abs(a_[0]), abs(b_[0]), 1e-300) for a_, b_ in zip(f_, ref_[1])):
+            fail("C04:regrouping", "neutron_scattering(%r, density=2.5) = %r but the same compound spelled %r gives %r"
+                 % (sp, [x[0] for x in f_], ref_[0], [x[0] for x in ref_[1]]), call=sp)
+
+# ---------------------------------------------------------------- every atom with an energy table: dense vectors in both orders
+# (numpy.interp starts its search from the previous entry, so a table that is not monotonic answers differently for
+# ascending and descending vectors; the scalar call is the reference)
+stats["table_atom_vectors"] = 0
+for a in pool.tab:
+    nodes = sorted(node_wavelengths(a))
+    mids = [(x + y) / 2 for x, y in zip(nodes, nodes[1:])]
+    ws = sorted(rng.sample(mids, min(len(mids), 14 if tier == "quick" else 60)))
+    seq = ((1, a), (2, TABLE[8]))
+    rho = 5.0
+    sc_ = [nsf.neutron_scattering(seq, density=rho, wavelength=w) for w in ws]
+    for order, wv in (("ascending", ws), ("descending", ws[::-1])):
+        stats["table_atom_vectors"] += 1
+        rv = attempt(nsf.neutron_scattering, seq, density=rho, wavelength=np.array(wv))
+        t9 = "neutron_scattering(%r, density=%r, wavelength=<%d mid-node wavelengths, %s>)" % (seq, rho, len(wv), order)
+        fv = flatten_result(rv, True, len(wv)) if isinstance(rv, tuple) else None
+        if fv is None:
+            fail("C04:vector-shape", "%s gives %r" % (t9, rv), call=t9)
+            continue
+        for j_w, w in enumerate(wv):
+            fs = flatten_result(sc_[ws.index(w)], False, 1)
+            bad = [NAMES[j] for j in range(7) if abs(fv[j][j_w] - fs[j][0]) > 1e-12 * max(abs(fv[j][j_w]), abs(fs[j][0]), 1e-300)]
+            if bad:
+                fail("C04:vector-vs-scalar", "entry %d (wavelength %r) of %s differs from the scalar call in %s: %r vs %r"
+                     % (j_w, w, t9, ", ".join(bad), [fv[j][j_w] for j in range(7)], [fs[j][0] for j in range(7)]), call=t9, wavelength=w)
+                break
+
 # ---------------------------------------------------------------- Formula objects with their own density
 stats["formula_objects"] = 0
 
